@@ -19,10 +19,13 @@ by the Lean model `Dcg.Model.ClassScope` through the driver):
       from the class, so a later `model_rebuild(force=True)` sees the module's name again.)
     - pydantic v1 evaluates in the module's globals only (`resolve_annotations`,
       `update_forward_refs`): not affected.
-    - dataclasses never evaluates; `typing.get_type_hints(cls)` (3.10+) lets the module's globals
-      win over the class namespace: not affected.  `inspect.get_annotations(cls, eval_str=True)`
-      and `pydantic.TypeAdapter(cls)` / `pydantic.dataclasses.dataclass(cls)` evaluate with the
-      class namespace first: affected (the class keeps the member's default as class attribute).
+    - dataclasses never evaluates; `typing.get_type_hints(cls)` (3.10+) looks a name up in the
+      module's globals first and in the class namespace second: it is affected only for names the
+      module does not bind, i.e. builtins (`Dict[str, int]` next to a member `str`, `list[int]`
+      next to a member `list`).  `inspect.get_annotations(cls, eval_str=True)` and
+      `pydantic.TypeAdapter(cls)` / `pydantic.dataclasses.dataclass(cls)` evaluate with the class
+      namespace first: affected for every name (the class keeps the member's default as class
+      attribute; a member written `field(...)` without `default=` is removed by @dataclass).
     - TypedDict members never have a value: nothing is bound, nothing can be hidden.
     - msgspec is not installed here; its own resolution (`msgspec._utils.get_class_annotations`)
       is not exercised, so for annotations nothing is claimed for msgspec.
